@@ -1269,6 +1269,8 @@ class FnLower:
                 return ("v", Val("()", "unit"))
         if m == "to_vec" and not args and recv[0] == "path" and len(recv[1]) == 1 and recv[1][0] in env and env[recv[1][0]].kind == "list":
             return ("v", Val(env[recv[1][0]].lean, "list", [env[recv[1][0]].lean]))      # a copy: the same value
+        if m == "to_vec" and not args and recv[0] == "index" and strip_paren(recv[2])[0] == "range":      # phase 4m: `x[lo..hi].to_vec()`: a copy of a (bounds-checked) sub-slice
+            return ("v", self.list_arg(recv, env, ops, "to_vec"))
         if m in ("max", "min") and len(args) == 1:
             a, b = self.seq([lambda: self.ex(recv, env, ops), lambda: self.ex(args[0], env, ops)], ops)
             if a.ty in ("u64", "usize") and b.ty in ("u64", "usize", "int"):
@@ -2276,7 +2278,7 @@ class FnLower2(FnLower):
         after = self.live_rest(stmts, i + 1, tail, k)
         brk = self.loop_brk[-1].live if self.loop_brk else set()
         inside = self.live_stmt(s, set(), brk) - {var}           # read inside the loop (before being written there)
-        asg = self.assigned_outer([body[0], body[1]], env)
+        asg = self.assigned_outer([body[0], body[1]], env, push=bool(self.opts.get("push_carried")))      # (phase 4m: table flag - a pushed-to Vec is loop-carried state)
         carried = [n for n in env if n in asg and (n in after or n in inside)]
         captured = [n for n in env if n in inside and n not in carried]
         if not carried: self.fail("nested loop without loop-carried state", ln)
@@ -2483,6 +2485,7 @@ class Skeleton:
                     self.used.add(key); out += parse_snippet(rep, "stmts", self.fn["name"]); continue
             if s[0] == "unsafe" and self.sk.get("unsafe_inline"):               # (task S) `unsafe { stmts }` = stmts; the raw-pointer expressions inside need table readings
                 ub = self.block(s[1])
+                if ub[1] is not None and strip_paren(ub[1])[0] == "if": ub = (ub[0] + [("expr", ub[1], None)], None)      # phase 4m: a trailing unit `if .. else ..`
                 if ub[1] is not None: self.lo.fail("`unsafe` block with a value")
                 out += ub[0]; continue
             if s[0] == "unsafe" and "unsafe" in self.sk.get("effects", {}):      # phase 4g: an `unsafe { .. }` block the table declares to be a pure data effect
